@@ -519,7 +519,14 @@ pub fn master_main(p: &'static PropDef, a: MasterArgs) -> ! {
         extra.push("--only".into());
         extra.push(j["leg"].as_str().unwrap_or("").into());
         extra.push(j["case"].as_str().unwrap_or("").into());
-        nshards = 1;
+        // same sharding as the recorded run: every worker enumerates its own share of the space
+        // (a single worker would have to hold all of it) and executes only the recorded case
+        nshards = match j["tier"].as_str() {
+            Some("thorough") => p.shards.1,
+            Some("quick") => p.shards.0,
+            _ => nshards,
+        }
+        .max(1);
         replay_expect = Some(j);
     }
 
